@@ -41,7 +41,18 @@ func TestC15ManyKeys(t *testing.T) {
 			c.NonTrivial()
 		}
 
+		// the index may be the one embedded in some other backend ("host") that shares it with these caches;
+		// what happens to the host's own entries is no business of the labels of the other caches
+		var host Backend
+
 		idx := cache.NewInvalidationIndex()
+
+		if c.Weighted("index-embedded-in-a-host-backend", 2, 1) == 1 {
+			host = newCaseBackend(c, []string{kindSharded, kindSync}[c.Pick("host-kind", 2)], cache.Config{ExpirationJitter: -1, DeleteExpiredJobInterval: farFuture, DeleteExpiredAfter: farFuture, ItemsCountReportInterval: farFuture})
+			idx = host.Index()
+			_ = host.Write(bg, []byte("host-entry"), "h")
+			c.Class("index-embedded-in-a-host-backend")
+		}
 		injErr := errors.New("injected delete failure")
 		calls, failPos := 0, -1
 
@@ -131,6 +142,11 @@ func TestC15ManyKeys(t *testing.T) {
 			}
 
 			return s
+		}
+
+		if host != nil && c.Bool("host-DeleteAll-before-invalidation") {
+			host.DeleteAll(bg)
+			c.Class("host-DeleteAll-before-invalidation")
 		}
 
 		ctx := context.Background()
